@@ -82,20 +82,24 @@ var stubEnv = []string{"GUI / match manager (harness)", "stdin/stdout (in-memory
 
 var plans = map[string]Plan{
 	"C12": {Level: "exploration", Runs: [2]int{1600, 40000}, RaceRuns: [2]int{0, 0}, Batch: 50, DesignRef: "5/C12",
-		Rule:  "one evaluation = one simulated UCI session (3-8 searches, seeded commands and fake-time gaps, option swarm, stalls). distinct = distinct interleaving signatures (hash of the sequence of (command kind, search phase at arrival in {idle,<5ms after end,iteration 1,2-3,deeper,busy wait}, live timer count)); non-trivial = at least one fault kind fired in the run",
-		Real:  realEngine, Stub: stubEnv,
+		Rule: "one evaluation = one simulated UCI session (3-8 searches, seeded commands and fake-time gaps, option swarm, stalls). distinct = distinct interleaving signatures (hash of the sequence of (command kind, search phase at arrival in {idle,<5ms after end,iteration 1,2-3,deeper,busy wait}, live timer count)); non-trivial = at least one fault kind fired in the run",
+		Real: realEngine, Stub: stubEnv,
 		Assume: []string{"rules model (independent chess implementation, validated against published perft counts) is correct", "statement-level interleavings inside one controller call are not scheduled (slot atomicity)"}},
 	"C05": {Level: "exploration", Runs: [2]int{1600, 40000}, Batch: 50, DesignRef: "5/C05",
-		Rule:  "one evaluation = one simulated UCI session with 5-10 searches on one engine (warm hash/history tables), all limit modes, stop/time-out at seeded fake instants, option + configuration swarm. distinct = distinct interleaving signatures; non-trivial = at least one fault kind fired",
-		Real:  realEngine, Stub: stubEnv,
+		Rule: "one evaluation = one simulated UCI session with 5-10 searches on one engine (warm hash/history tables), all limit modes, stop/time-out at seeded fake instants, option + configuration swarm. distinct = distinct interleaving signatures; non-trivial = at least one fault kind fired",
+		Real: realEngine, Stub: stubEnv,
 		Assume: []string{"rules model is correct", "roots that are already draws by the fifty-move rule or third occurrence are outside the quantifier (narrow reading)"}},
 	"C13": {Level: "exploration", Runs: [2]int{1200, 30000}, Batch: 50, DesignRef: "5/C13",
-		Rule:  "one evaluation = one simulated session or clocked game on the fake clock; distinct = distinct interleaving signatures; non-trivial = a time-out fired mid-search or a limit oracle had a sample",
-		Real:  realEngine, Stub: stubEnv,
+		Rule: "one evaluation = one simulated session or clocked game on the fake clock; distinct = distinct interleaving signatures; non-trivial = a time-out fired mid-search or a limit oracle had a sample",
+		Real: realEngine, Stub: stubEnv,
 		Assume: []string{"scheduling allowance 10 fake ms; stop-check cost <= 10us in deadline runs; no stalls"}},
+	"C14": {Level: "exploration", Runs: [2]int{1600, 40000}, RaceRuns: [2]int{160, 4000}, Batch: 50, DesignRef: "5/C14",
+		Rule: "one evaluation = one simulated lifecycle-call sequence (3 of 4 at Search API level with the harness as UCI driver, 1 of 4 through UCI text), run on the plain build and (a subset) on the -race build inside the simulator; distinct = distinct interleaving signatures (call kind, search phase at arrival, live timer count); non-trivial = at least one fault kind fired (call at a 'wrong' time, cancellation of a running search, time-out mid-search, start within 5 ms of a result, stall)",
+		Real: realEngine, Stub: append([]string{"API controller (harness goroutine issuing real lifecycle calls)", "UCI driver interface (harness records results)"}, stubEnv...),
+		Assume: []string{"race detection is happens-before based (Go race detector) on the simulated schedule; harness code on engine goroutines is //go:norace and free of synchronisation", "slot atomicity of one controller call"}},
 	"C07": {Level: "exploration", Runs: [2]int{1200, 30000}, Batch: 50, DesignRef: "5/C07",
-		Rule:  "one evaluation = one simulated session with the terminal-node monitor on; distinct = distinct (interleaving signature); non-trivial = at least one mate/stalemate classification was checked against the rules model",
-		Real:  realEngine, Stub: stubEnv,
+		Rule: "one evaluation = one simulated session with the terminal-node monitor on; distinct = distinct (interleaving signature); non-trivial = at least one mate/stalemate classification was checked against the rules model",
+		Real: realEngine, Stub: stubEnv,
 		Assume: []string{"rules model is correct"}},
 }
 
@@ -213,12 +217,14 @@ func runBatch(bin string, b batch, idx int, extraEnv []string) ([]*sim.RunResult
 		results = append(results, rs...)
 		if b.race {
 			raceReports = append(raceReports, splitRaceReports(stderr.String())...)
+			attachRaces(stderr.String(), rs, b.prop)
 		}
 		last := from - 1
 		if len(rs) > 0 {
 			last = rs[len(rs)-1].Seed
 		}
-		if err == nil {
+		if err == nil || last+1 >= end {
+			// all seeds reported (a race build exits non-zero after reports)
 			break
 		}
 		// crashed or killed: which seed was running?
@@ -305,6 +311,89 @@ func classifyCrash(stderr string, err error) (string, string) {
 	return "crash:" + kind + ":" + site, first + " | " + strings.ReplaceAll(rest, "\n", " / ")
 }
 
+var reRaceHdr = regexp.MustCompile(`^(Write|Read|Previous write|Previous read|Atomic write|Atomic read|Previous atomic write|Previous atomic read) at `)
+
+// normaliseRace turns one race report into a stable class: the unordered
+// pair of (access kind, innermost engine function), line numbers dropped.
+func normaliseRace(rep string) (string, bool) {
+	lines := strings.Split(rep, "\n")
+	var parts []string
+	harnessOnly := true
+	for i := 0; i < len(lines); i++ {
+		m := reRaceHdr.FindStringSubmatch(lines[i])
+		if m == nil {
+			continue
+		}
+		kind := "R"
+		if strings.Contains(strings.ToLower(m[1]), "write") {
+			kind = "W"
+		}
+		fn := ""
+		top := ""
+		for j := i + 1; j < len(lines) && strings.HasPrefix(lines[j], "  "); j++ {
+			l := strings.TrimSpace(lines[j])
+			if strings.HasPrefix(l, "/") || l == "" {
+				continue
+			}
+			if top == "" {
+				top = l
+			}
+			if k := strings.Index(l, "FrankyGo/internal/"); k >= 0 {
+				fn = l[k+len("FrankyGo/internal/"):]
+				if p := strings.LastIndex(fn, "("); p > 0 {
+					fn = fn[:p]
+				}
+				break
+			}
+		}
+		if fn == "" {
+			fn = "?" + top
+		} else {
+			harnessOnly = false
+		}
+		parts = append(parts, kind+" "+fn)
+	}
+	sort.Strings(parts)
+	return "race:" + strings.Join(parts, " | "), harnessOnly
+}
+
+// attachRaces parses a race-build worker's stderr and attaches the reports
+// as violations to the run (seed) during which they were printed.
+func attachRaces(stderr string, rs []*sim.RunResult, prop string) {
+	bySeed := map[uint64]*sim.RunResult{}
+	for _, r := range rs {
+		bySeed[r.Seed] = r
+	}
+	idx := reSeedStart.FindAllStringSubmatchIndex(stderr, -1)
+	for i, m := range idx {
+		seed, _ := strconv.ParseUint(stderr[m[2]:m[3]], 10, 64)
+		end := len(stderr)
+		if i+1 < len(idx) {
+			end = idx[i+1][0]
+		}
+		r := bySeed[seed]
+		if r == nil {
+			continue
+		}
+		for _, rep := range splitRaceReports(stderr[m[1]:end]) {
+			cls, harness := normaliseRace(rep)
+			if harness {
+				r.Harness = "race report without engine frame: " + clip(rep, 400)
+				continue
+			}
+			dup := false
+			for _, v := range r.Violations {
+				if v.Class == cls {
+					dup = true
+				}
+			}
+			if !dup {
+				r.Violations = append(r.Violations, sim.Violation{Prop: "C14", Class: cls, Detail: clip(strings.ReplaceAll(rep, "\n", " / "), 1500)})
+			}
+		}
+	}
+}
+
 func splitRaceReports(stderr string) []string {
 	var out []string
 	parts := strings.Split(stderr, "==================\n")
@@ -356,6 +445,10 @@ func replayOnce(bin string, path string, tag string) (*sim.RunResult, *crashInfo
 	cmd := exec.Command(bin, "-test.run", "^TestWorker$", "-test.cpu", "1", "-test.timeout", "1h")
 	cmd.Dir = filepath.Join(workDir, "cwd")
 	cmd.Env = append(os.Environ(), "VERIF_OUT="+outPath, "VERIF_REPLAY="+path, "GOMEMLIMIT=3GiB", "GOMAXPROCS=2")
+	isRace := strings.HasSuffix(bin, ".race.test")
+	if isRace {
+		cmd.Env = append(cmd.Env, "GORACE=halt_on_error=0 suppress_equal_stacks=0 suppress_equal_addresses=0 history_size=2")
+	}
 	var stderr bytes.Buffer
 	cmd.Stderr = &limitedWriter{w: &stderr, max: 8 << 20}
 	done := make(chan error, 1)
@@ -374,6 +467,9 @@ func replayOnce(bin string, path string, tag string) (*sim.RunResult, *crashInfo
 	rs := readResults(outPath)
 	_ = os.Remove(outPath)
 	if len(rs) > 0 {
+		if isRace {
+			attachRaces(stderr.String(), rs, rs[0].Prop)
+		}
 		return rs[0], nil
 	}
 	if err == nil {
@@ -575,6 +671,7 @@ type violGroup struct {
 	crashSeed   uint64
 	crashSc     *sim.Scenario
 	isCrash     bool
+	race        bool
 }
 
 func tierIndex(tier string) int {
@@ -607,26 +704,6 @@ func check(prop, tier string) int {
 		batches = append(batches, batch{prop: prop, from: base + uint64(off), count: uint64(c)})
 	}
 	results, crashes, _ := runAll(bin, batches, nil)
-	// regression scenarios of repaired defects: a fixed entry suppresses
-	// nothing, the violation is reported again if it ever returns
-	regs, _ := filepath.Glob(filepath.Join(verifDir, "regress", prop+"-*.json"))
-	sort.Strings(regs)
-	for i, rp := range regs {
-		sc, err := sim.LoadScenario(rp)
-		if err != nil {
-			fatal2("regress %s: %v", rp, err)
-		}
-		sc.Expect = nil
-		r, c := replayOnce(bin, rp, fmt.Sprintf("regress-%d", i))
-		if r != nil {
-			r.Scenario = sc
-			r.Seed = uint64(900_000_000 + i)
-			results = append(results, r)
-		} else if c != nil {
-			crashes = append(crashes, crashInfo{Seed: 0, Class: c.Class, Detail: c.Detail, Sc: sc})
-		}
-	}
-
 	// race pass
 	var raceRes []*sim.RunResult
 	var raceReports []string
@@ -644,12 +721,46 @@ func check(prop, tier string) int {
 		raceRes, rc, raceReports = runAll(rbin, rb, nil)
 		crashes = append(crashes, rc...)
 	}
-	_ = raceRes
-
-	return report(prop, tier, seed, plan, bin, results, crashes, raceReports, start)
+	// regression scenarios of repaired defects: a fixed entry suppresses
+	// nothing, the violation is reported again if it ever returns.
+	// Files named <PROP>-race-* are replayed on the -race build.
+	regs, _ := filepath.Glob(filepath.Join(verifDir, "regress", prop+"-*.json"))
+	sort.Strings(regs)
+	for i, rp := range regs {
+		sc, err := sim.LoadScenario(rp)
+		if err != nil {
+			fatal2("regress %s: %v", rp, err)
+		}
+		sc.Expect = nil
+		isRace := strings.HasPrefix(filepath.Base(rp), prop+"-race-")
+		useBin := bin
+		if isRace {
+			if plan.RaceRuns[ti] == 0 {
+				continue
+			}
+			useBin = filepath.Join(workDir, "sim.race.test")
+		}
+		r, c := replayOnce(useBin, rp, fmt.Sprintf("regress-%d", i))
+		if r != nil {
+			r.Scenario = sc
+			r.Seed = uint64(900_000_000 + i)
+			if isRace {
+				raceRes = append(raceRes, r)
+			} else {
+				results = append(results, r)
+			}
+		} else if c != nil {
+			crashes = append(crashes, crashInfo{Seed: 0, Class: c.Class, Detail: c.Detail, Sc: sc})
+		}
+	}
+	rbinPath := ""
+	if plan.RaceRuns[ti] > 0 {
+		rbinPath = filepath.Join(workDir, "sim.race.test")
+	}
+	return report(prop, tier, seed, plan, bin, rbinPath, results, raceRes, crashes, raceReports, start)
 }
 
-func report(prop, tier string, seed uint64, plan Plan, bin string, results []*sim.RunResult, crashes []crashInfo, raceReports []string, start time.Time) int {
+func report(prop, tier string, seed uint64, plan Plan, bin, rbin string, results, raceRes []*sim.RunResult, crashes []crashInfo, raceReports []string, start time.Time) int {
 	known := loadKnown()
 	groups := map[string]*violGroup{}
 	harness := map[string]int{}
@@ -691,6 +802,32 @@ func report(prop, tier string, seed uint64, plan Plan, bin string, results []*si
 				groups[key] = g
 			}
 			g.count++
+			if r.Scenario != nil && (g.best == nil || len(r.Scenario.Steps) < len(g.best.Scenario.Steps)) {
+				g.best = r
+				g.detail = v.Detail
+			}
+		}
+	}
+	raceClasses := map[string]int{}
+	for _, r := range raceRes {
+		if r.Harness != "" && strings.HasPrefix(r.Harness, "race report") {
+			harness[r.Harness]++
+		}
+		for _, v := range r.Violations {
+			if v.Prop != prop || !strings.HasPrefix(v.Class, "race:") {
+				continue // functional oracles are decided on the plain build
+			}
+			raceClasses[v.Class]++
+			key := v.Prop + ":" + v.Class
+			g := groups[key]
+			if g == nil {
+				g = &violGroup{prop: v.Prop, class: v.Class, detail: v.Detail, race: true}
+				groups[key] = g
+			}
+			g.count++
+			if r.Scenario == nil {
+				r.Scenario = sim.Generate(prop, r.Seed)
+			}
 			if r.Scenario != nil && (g.best == nil || len(r.Scenario.Steps) < len(g.best.Scenario.Steps)) {
 				g.best = r
 				g.detail = v.Detail
@@ -744,22 +881,26 @@ func report(prop, tier string, seed uint64, plan Plan, bin string, results []*si
 			exit = max(exit, 2)
 			continue
 		}
+		useBin := bin
+		if g.race && rbin != "" {
+			useBin = rbin
+		}
 		tmp := filepath.Join(workDir, "run", "confirm-"+sanitize(key)+".json")
 		_ = sc.Save(tmp)
-		r, c := replayOnce(bin, tmp, "confirm-"+sanitize(key))
+		r, c := replayOnce(useBin, tmp, "confirm-"+sanitize(key))
 		if _, ok := classesOf(r, c, prop)[key]; !ok {
 			fmt.Printf("NON-REPRODUCIBLE: %s (seed %d) did not reproduce in a fresh process\n", key, sc.Seed)
 			exit = max(exit, 2)
 			continue
 		}
-		m := &minimiser{bin: bin, key: key, prop: prop}
+		m := &minimiser{bin: useBin, key: key, prop: prop}
 		minSc := m.minimise(sc, time.Duration(envInt("VERIF_MIN_S", 60))*time.Second)
 		minSc.Expect = &sim.Expectation{Class: key}
 		minSc.Note = clip(g.detail, 500)
 		rp := filepath.Join(verifDir, "replays", fmt.Sprintf("%s-%s-%d.json", prop, sanitize(g.class), sc.Seed))
 		_ = minSc.Save(rp)
 		// the minimised file must fail the same way in a fresh process
-		r2, c2 := replayOnce(bin, rp, "final-"+sanitize(key))
+		r2, c2 := replayOnce(useBin, rp, "final-"+sanitize(key))
 		if _, ok := classesOf(r2, c2, prop)[key]; !ok {
 			_ = sc.Clone().Save(rp)
 		}
@@ -832,6 +973,8 @@ func report(prop, tier string, seed uint64, plan Plan, bin string, results []*si
 			"real_components":     plan.Real,
 			"stub_components":     plan.Stub,
 			"race_reports":        len(raceReports),
+			"race_build_runs":     len(raceRes),
+			"race_classes":        raceClasses,
 			"worker_crashes":      len(crashes),
 		},
 	}
